@@ -28,7 +28,7 @@ Restart family (property C09): discarding ONE endpoint and rebuilding it over th
     1 head      `_validate_integrity`, logon / seqreset / logout handling, gap check (l.818-865)
     2 dispatch  type dispatch incl. the application callback `on_message`           (l.867-881)
     3 count     `session.set_next_num_in` – the live counter moves                   (l.747)
-    4 mark      resend-watermark / state update, `_message_last_time`                (l.749-761)
+    4 mark      resend-watermark / state update, `_message_last_time` (while connected) (l.749-762)
     5 journal   `persist_msg(INBOUND)`                                              (l.763)
   Segments 3-5 are `_finalize_message`, run from the `finally` clause.
 
@@ -160,7 +160,10 @@ def recvMark (env : Env) : Seg RecvSt := fun s =>
         stateSet st_ACTIVE
       else pure ()
     else pure ()
-    M.modify fun c => { c with lastTime := env.now }
+    let c' ← M.get
+    -- fix 5623bd4: the receive time is stamped only while connected
+    if c'.state > st_DISCONNECTED_BROKEN_CONN then M.modify fun c => { c with lastTime := env.now }
+    else pure ()
     pure s
   else pure s
 
